@@ -6,6 +6,7 @@ import (
 	"fmt"
 	"sort"
 	"strings"
+	"time"
 
 	"github.com/nyaruka/goflow/assets"
 	"github.com/nyaruka/goflow/envs"
@@ -36,7 +37,7 @@ func (p *c06) Directed() []string {
 }
 
 func (p *c06) Floors(tier string) []string {
-	return []string{"clause.membership", "clause.membership_in", "clause.membership_out", "clause.nonactive_static", "clause.delta_vs_events", "seen.membership_changed", "seen.wrong_at_start",
+	return []string{"clause.membership", "clause.membership_in", "clause.membership_out", "clause.nonactive_static", "clause.delta_vs_events", "clause.reference_membership", "seen.membership_changed", "seen.wrong_at_start",
 		"route.msg_received", "route.contact_field_changed", "route.contact_status_changed", "route.ticket_opened", "route.contact_urns_changed", "route.contact_name_changed", "route.contact_language_changed", "mods.applied"}
 }
 
@@ -93,6 +94,52 @@ func groupIDs(c contactModel) map[string]bool {
 		}
 	}
 	return out
+}
+
+// checkReference compares the membership of every query group with the independent reference evaluator (where it knows
+// the answer) under each of the given timezones; membership must agree with the reference under at least one of them.
+func checkReference(res *fw.Result, sa flows.SessionAssets, contact *flows.Contact, tzs []*time.Location, viol func(sig, what string, extra map[string]any)) {
+	var rc refContact
+	d := json.NewDecoder(bytes.NewReader(marshalJSON(contact)))
+	d.UseNumber()
+	if d.Decode(&rc) != nil {
+		return
+	}
+	active := rc.Status == "" || rc.Status == "active"
+	for _, g := range sa.Groups().All() {
+		if !g.UsesQuery() {
+			continue
+		}
+		q := parseRefQuery(g.Query())
+		if q == nil {
+			res.Count("reference.unparsed", 1)
+			continue
+		}
+		in := contact.Groups().FindByUUID(g.UUID()) != nil
+		known, agree := false, false
+		var refs []bool
+		for _, tz := range tzs {
+			r, k := q.eval(&rc, tz)
+			if !k {
+				continue
+			}
+			known = true
+			want := active && r
+			refs = append(refs, want)
+			if want == in {
+				agree = true
+			}
+		}
+		if !known {
+			res.Count("reference.unknown", 1)
+			continue
+		}
+		res.Count("clause.reference_membership", 1)
+		if !agree {
+			viol("C06|reference-mismatch|"+queryProps(g.Query()), fmt.Sprintf("contact in group %q = %v but an independent evaluation of its query %q on the contact JSON gives %v", g.Name(), in, g.Query(), refs),
+				map[string]any{"group": g.Name(), "query": g.Query(), "in_group": in, "reference": refs, "contact": string(marshalJSON(contact))})
+		}
+	}
 }
 
 func (p *c06) Run(c fw.Case) fw.Result {
@@ -187,6 +234,7 @@ func (p *c06) engine(res *fw.Result, scen *gen.Scenario, c fw.Case) {
 			res.Violate(sig+"|"+entry, what, witnessOf(scen, extra))
 		}
 		checkMembership(res, rn.SA, s.Contact(), []envs.Environment{s.Environment(), s.MergedEnvironment()}, viol)
+		checkReference(res, rn.SA, s.Contact(), []*time.Location{s.Environment().Timezone(), s.MergedEnvironment().Timezone()}, viol)
 
 		before := rec.ContactBefore
 		if rec.Kind == "start" {
@@ -310,6 +358,7 @@ func (p *c06) mods(res *fw.Result, r *fw.Rand, c fw.Case) {
 			res.Violate(sig+"|modifier:"+ms.kind, what, extra)
 		}
 		checkMembership(res, rn.SA, contact, []envs.Environment{env}, viol)
+		checkReference(res, rn.SA, contact, []*time.Location{env.Timezone()}, viol)
 		if contact.Status() != flows.ContactStatusActive && statusBefore == flows.ContactStatusActive {
 			res.Count("clause.nonactive_static", 1)
 			for _, g := range contact.Groups().All() {
